@@ -13,6 +13,7 @@ struct FailingWriter {
     n: usize,
     k: Option<usize>,
     short: bool,
+    kind: std::io::ErrorKind,
 }
 impl Write for FailingWriter {
     fn write(&mut self, b: &[u8]) -> std::io::Result<usize> {
@@ -28,7 +29,7 @@ impl Write for FailingWriter {
     }
     fn write_fmt(&mut self, args: std::fmt::Arguments<'_>) -> std::io::Result<()> {
         if self.k == Some(self.n) {
-            return Err(std::io::Error::new(std::io::ErrorKind::Other, "injected"));
+            return Err(std::io::Error::new(self.kind, "injected"));
         }
         self.n += 1;
         let s = std::fmt::format(args);
@@ -47,6 +48,7 @@ fn main() {
     let mut repeat = 1;
     let mut order: Option<Vec<String>> = None;
     let mut short = false;
+    let mut kind = std::io::ErrorKind::Other;
     let mut i = 5;
     while i < a.len() {
         match a[i].as_str() {
@@ -54,6 +56,19 @@ fn main() {
             "--repeat" => { repeat = a[i + 1].parse().unwrap(); i += 2; }
             "--order" => { order = Some(a[i + 1].split(',').map(str::to_string).collect()); i += 2; }
             "--short" => { short = true; i += 1; }
+            "--kind" => {
+                kind = match a[i + 1].as_str() {
+                    "BrokenPipe" => std::io::ErrorKind::BrokenPipe,
+                    "WriteZero" => std::io::ErrorKind::WriteZero,
+                    "Interrupted" => std::io::ErrorKind::Interrupted,
+                    "PermissionDenied" => std::io::ErrorKind::PermissionDenied,
+                    "StorageFull" => std::io::ErrorKind::StorageFull,
+                    "TimedOut" => std::io::ErrorKind::TimedOut,
+                    "UnexpectedEof" => std::io::ErrorKind::UnexpectedEof,
+                    _ => std::io::ErrorKind::Other,
+                };
+                i += 2;
+            }
             _ => { i += 1; }
         }
     }
@@ -74,7 +89,7 @@ fn main() {
     let ftr = FilesToRead::new(start, files);
     std::panic::set_hook(Box::new(|_| {}));
     for run in 0..repeat {
-        let mut w = FailingWriter { buf: Vec::new(), n: 0, k, short };
+        let mut w = FailingWriter { buf: Vec::new(), n: 0, k, short, kind };
         let r = catch_unwind(AssertUnwindSafe(|| match XmlReader::read_xml(&ftr) {
             Err(e) => format!("READ_ERR {e:?}"),
             Ok(doc) => match doc.write_xml(&mut w) {
